@@ -140,6 +140,42 @@ def simp(t):
     return t
 
 
+def _is_strish(t) -> bool:
+    return (t[0] == 'lit' and t[1] == 'str') or t[0] in ('concat', 'fstr') or \
+        (t[0] == 'call' and t[1] == 'str')
+
+
+def mk_concat(parts):
+    """string building in one spelling: a + 'x' + str(b), f'{a}x{b}', 'x'.join([a, b]), '%sx%s' % (a, b) and
+    '{}x{}'.format(a, b) all become ('concat', (a, 'x', b)); str() around a part is dropped (inside an f-string it is
+    implicit), adjacent literals are merged."""
+    import ast as _a
+    flat = []
+    for x in parts:
+        if x[0] == 'concat':
+            flat.extend(x[1])
+        elif x[0] == 'fstr':
+            flat.extend(x[1])
+        elif x[0] == 'call' and x[1] == 'str' and len(x) > 2 and len(x[2]) == 1:
+            flat.append(x[2][0])
+        else:
+            flat.append(x)
+    out = []
+    for x in flat:
+        if x[0] == 'lit' and x[1] == 'str':
+            if _a.literal_eval(x[2]) == '':
+                continue
+            if out and out[-1][0] == 'lit' and out[-1][1] == 'str':
+                out[-1] = lit(_a.literal_eval(out[-1][2]) + _a.literal_eval(x[2]))
+                continue
+        out.append(x)
+    if not out:
+        return lit('')
+    if len(out) == 1 and out[0][0] == 'lit':
+        return out[0]
+    return ('concat', tuple(canon(x) for x in out))
+
+
 def _find_ite(t):
     if not isinstance(t, tuple) or not t or not isinstance(t[0], str):
         return None
@@ -434,7 +470,7 @@ class Extractor:
                     parts.append(lit(v.value))
                 elif isinstance(v, ast.FormattedValue):
                     parts.append(canon(self.expr(v.value, p, bound)))
-            return ('fstr', tuple(parts))
+            return mk_concat(parts)
         if isinstance(e, ast.NamedExpr):
             v = self.expr(e.value, p, bound)
             p.env[e.target.id] = v
@@ -455,6 +491,23 @@ class Extractor:
             return ('lambda', ast.dump(e))
         if isinstance(e, ast.BinOp):
             l, r = self.expr(e.left, p, bound), self.expr(e.right, p, bound)
+            if isinstance(e.op, ast.Add) and (_is_strish(l) or _is_strish(r)):
+                return mk_concat([l, r])
+            if isinstance(e.op, ast.Mod) and l[0] == 'lit' and l[1] == 'str':
+                import ast as _a, re as _re
+                tmpl = _a.literal_eval(l[2])
+                argsr = list(r[1]) if r[0] == 'list' and isinstance(r[1], tuple) else [r]
+                pieces = _re.split(r'(%[sd])', tmpl)
+                if '%' not in ''.join(x for x in pieces if x not in ('%s', '%d')) \
+                        and sum(1 for x in pieces if x in ('%s', '%d')) == len(argsr):
+                    parts, k = [], 0
+                    for x in pieces:
+                        if x in ('%s', '%d'):
+                            parts.append(argsr[k])
+                            k += 1
+                        elif x:
+                            parts.append(lit(x))
+                    return mk_concat(parts)
             if isinstance(e.op, ast.Add) and l[0] == 'lit' and r[0] == 'lit' and l[1] == 'str' and r[1] == 'str':
                 import ast as _a
                 return lit(_a.literal_eval(l[2]) + _a.literal_eval(r[2]))
@@ -562,7 +615,20 @@ class Extractor:
             if n == 'bool' and len(args) == 1:
                 return self.truth(args[0])
             if n == 'len' and len(args) == 1:
+                a0 = args[0]
+                if a0[0] == 'call' and a0[1] == 'list' and len(a0) > 2 and len(a0[2]) == 1:
+                    a0 = a0[2][0]
+                if a0[0] == 'filtermap' and len(a0[1]) == 1:
+                    # len([.. for x in C if cond]) counts the elements of C that satisfy cond
+                    return ('count', a0[1][0][0], a0[1][0][1])
                 return ('len', args[0])
+            if n == 'sum' and len(args) == 1 and args[0][0] == 'filtermap' and len(args[0][1]) == 1:
+                (coll, cond), elt = args[0][1][0], args[0][2]
+                if elt == ('lit', 'int', '1'):
+                    return ('count', coll, cond)
+                if _boolish(elt):
+                    # sum(cond(x) for x in C): True counts as 1
+                    return ('count', coll, canon(mk_and(cond, self.truth(elt))))
             if n == 'getattr' and len(args) == 2 and args[1][0] == 'lit' and args[1][1] == 'str':
                 import ast as _a
                 name = _a.literal_eval(args[1][2])
@@ -622,6 +688,27 @@ class Extractor:
             recv = self.expr(fn.value, p, bound)
             if self.strip_copies and fn.attr == 'copy' and not args:
                 return recv
+            if fn.attr == 'join' and recv[0] == 'lit' and recv[1] == 'str' and len(args) == 1 and not e.keywords \
+                    and args[0][0] == 'list':
+                parts = []
+                for k_, a_ in enumerate(args[0][1]):
+                    if k_:
+                        parts.append(recv)
+                    parts.append(a_)
+                return mk_concat(parts)
+            if fn.attr == 'format' and recv[0] == 'lit' and recv[1] == 'str' and not e.keywords:
+                import ast as _a, re as _re
+                pieces = _re.split(r'(\{\})', _a.literal_eval(recv[2]))
+                if sum(1 for x in pieces if x == '{}') == len(args) \
+                        and not any('{' in x or '}' in x for x in pieces if x != '{}'):
+                    parts, k_ = [], 0
+                    for x in pieces:
+                        if x == '{}':
+                            parts.append(args[k_])
+                            k_ += 1
+                        elif x:
+                            parts.append(lit(x))
+                    return mk_concat(parts)
             if fn.attr == 'get' and len(args) in (1, 2) and not e.keywords and fn.attr not in self.inline:
                 # d.get(k, default)  ==  d[k] if k in d else default
                 return mk_ite(('in', args[0], recv), ('item', recv, args[0]), args[1] if len(args) == 2 else NONE)
@@ -1419,7 +1506,18 @@ def _sort_effects(effs):
         def place(tg):
             return repr(sorted(map(repr, tg))[:1])
         keyed.sort(key=lambda x: (place(x[1]), x[2]))
-        out.extend(k[0] for k in keyed)
+        # two plain stores into the same slot inside one run of container writes: the later one wins (nothing reads
+        # the slot in between - a run holds writes only - unless the later value is computed from the slot itself)
+        res = []
+        last = {}
+        for e, tg, idx in keyed:
+            if e[0] == 'setitem':
+                slot = (e[1], e[2])
+                if slot in last and not _mentions(e[3], ('item', e[1], e[2])):
+                    res[last[slot]] = None
+                last[slot] = len(res)
+            res.append(e)
+        out.extend(x for x in res if x is not None)
         run.clear()
     for e in effs:
         acc = []
